@@ -5,11 +5,12 @@ import G3D.Proofs.BodySoundSets
 import G3D.Proofs.K5
 import G3D.Proofs.K3
 import G3D.Proofs.BridgeExact
-/-! # C02 — flat primitive × ConvexPolygon / ConvexPolyhedron
-    Full for the five flat × polygon pairs in both argument orders (kernels K0 and K1 are proved):
-    the result denotes exactly f ∩ hull(vertices).  For polyhedra the proved direction is soundness of
-    membership (hull ⊆ contains); exactness of the five flat × polyhedron pairs needs the unproved
-    kernels K3/K5 and is decided by the correspondence against the exact vertex-enumeration oracle. -/
+/-! # C02 — flat primitive × ConvexPolygon / ConvexPolyhedron  (full)
+    All five flat × polygon pairs (kernels K0, K1; every Valid polygon) and all five flat × polyhedron pairs (kernels K3, K5;
+    every polyhedron meeting `ExactHyp`) are exact in both argument orders: the result denotes exactly f ∩ hull(vertices).
+    `ExactHyp` is met by what the constructor stores (bridge theorem) and cannot be weakened to allow coplanar neighbouring
+    faces (counterexample).  The theorems named `…_partial` / `…_sound` are the earlier one-directional statements, kept because
+    they need weaker hypotheses. -/
 namespace G3D.Props.C02
 open G3D V3
 
